@@ -444,6 +444,15 @@ def cases_stream(rng, n):
                             hdrb = hdrb[:-1]
                         vals.update(filesync_info=fi2, expected_ids=rng.choice([[constants.DATA, constants.DONE], [constants.STAT], [constants.DENT, constants.DONE], [constants.OKAY]]),
                                     eff0=None, eff1=hdrb, eff2=bytearray(rng.choice([b"", b"nope", b"\xff\xfe"])))
+                    if base.startswith("filesync_send"):
+                        fi3 = _FileSyncTransactionInfo(rng.choice([constants.FILESYNC_PUSH_FORMAT, constants.FILESYNC_LIST_FORMAT]), rng.choice([64, 40]))
+                        fi3.send_buffer = bytearray(rng.randbytes(fi3._maxdata))
+                        fi3.send_idx = rng.choice([0, 8, 20, 30, 39])
+                        fl = copy.deepcopy(fi3)
+                        fl.send_idx = 0
+                        vals.update(filesync_info=fi3, command_id=rng.choice([constants.DATA, constants.SEND, constants.DONE, constants.STAT, b"XXXX"]),
+                                    data=rng.choice([b"", b"abc", rng.randbytes(20), rng.randbytes(33), "sdcard/x", "p\u00e9", ""]),
+                                    size=rng.choice([None, None, 0, 1700000000, 2 ** 32, -1]), eff0=fl)
                 elif base.startswith("read_until_close"):
                     vals["eff0"] = (cmdb, payload)
                 elif base.startswith("read_until"):
